@@ -132,7 +132,15 @@ def compile_obligation(rel, work, timeout=600):
     thms = [m.group(2) for m in THM.finditer(re.sub(r'\(\*.*?\*\)', '', txt, flags=re.S))]
     t0 = time.time()
     rc, out = sh(['coqc', '-q', '-R', COQ, 'LC', '-w', '-all', vcopy], timeout, cwd=dst)
-    axioms = sorted(set(re.findall(r'^([A-Za-z_][A-Za-z0-9_.\']*)\s*:', out, re.M)) - {'File', 'Error', 'Warning'})
+    axioms, in_ax = set(), False
+    for line in out.splitlines():
+        if line.startswith('Axioms:'):
+            in_ax = True
+        elif line.startswith('Closed under') or not line.strip():
+            in_ax = False
+        elif in_ax and line[:1] not in (' ', '\t'):
+            axioms.add(re.split(r'[\s:]', line, 1)[0])
+    axioms = sorted(axioms)
     closed = out.count('Closed under the global context')
     return {'file': rel, 'ok': rc == 0, 'theorems': thms, 'closed': closed, 'axioms': axioms,
             'secs': round(time.time() - t0, 2), 'log': out[-3000:] if rc != 0 else ''}
